@@ -807,7 +807,7 @@ def run(ctx):
     # The case lists are FIXED by (tier, seed): count-bounded, never time-bounded.  `abort` is a
     # last-resort guard only (-> UNDECIDED, exit 2), sized well above the expected run time
     # (quick: ~25 s idle / ~100 s at 4x load; thorough: ~2 min idle / ~8 min at 4x load).
-    abort = ctx.pick(300, 870)
+    abort = float(os.environ.get("VF_C03_ABORT_S") or ctx.pick(300, 870))  # env override: development aid on an overloaded machine
     sg, small, sampled, plan = case_lists(ctx.thorough, ctx.seed)
 
     with cf.ProcessPoolExecutor(max_workers=12, mp_context=mp.get_context("spawn"), initializer=_pool_init) as ex:
